@@ -346,8 +346,9 @@ def c10_4(rep, ix):
             rep.bad(R, ix.site(f, n), "`%s` formats line and column into its message" % key, "message is not a recognisable format expression", key="fmt|" + key)
             continue
         lits = [p for p in parts]
-        ok = len(parts) >= 4 and parts[0][0] == "lit" and parts[0][1] == "Blackbird SyntaxError (line " and parts[1][0] == "expr" and u(parts[1][1]) == "line" \
-            and parts[2] == ("lit", ":") and parts[3][0] == "expr" and " ".join(u(parts[3][1]).split()) in ("column + 1", "1 + column") \
+        from ..py.guards import resolved_text as _rt
+        ok = len(parts) >= 4 and parts[0][0] == "lit" and parts[0][1] == "Blackbird SyntaxError (line " and parts[1][0] == "expr" and _rt(fn, parts[1][1], n) == "line" \
+            and parts[2] == ("lit", ":") and parts[3][0] == "expr" and _rt(fn, parts[3][1], n) in ("column + 1", "1 + column") \
             and len(parts) > 4 and parts[4][0] == "lit" and parts[4][1].startswith(")")
         shown = "".join(p[1] if p[0] == "lit" else "{%s}" % u(p[1]) for p in parts)[:70]
         rep.check(ok, R, ix.site(f, n), "`%s`: the message starts 'Blackbird SyntaxError (line {line}:{column + 1})'" % key, "message `%s`" % shown, key="msg|" + key)
